@@ -9,7 +9,7 @@ WT=$(mktemp -d /tmp/seedwt-XXXX); rmdir $WT
 git -C /repo worktree add -q --detach $WT HEAD || exit 2
 trap 'git -C /repo worktree remove --force $WT; rm -rf $OUT' EXIT
 OUT=$(mktemp -d /tmp/seedout-XXXX)
-RACE=${DEMO_RACE:+-race}
+RACE="${DEMO_RACE:+-race} ${DEMO_ARGS}"
 cp $DEMO $WT/$PLACE
 (cd $WT && go test $RACE -vet=off -count=1 -run "$RUN" $PKG > $OUT/demo-without.log 2>&1); rc0=$?
 echo "[$NAME] demo WITHOUT the change: rc=$rc0 (want 0)"
